@@ -87,7 +87,7 @@ def renderSubjects (t : Table) (subs : List Subject) : R Str := do
 def renderIndex (t : Table) (ix : Index) : R Str := do
   let subj ← renderSubjects t ix.subjects
   let opts : List Str :=
-    (if truthy ix.name then [lit "name: '" ++ ix.name.getD [] ++ ['\'']] else [])
+    (if truthy ix.name then [lit "name: '" ++ prepareTextForDbml (ix.name.getD []) ++ ['\'']] else [])
     ++ (if ix.pk then [lit "pk"] else [])
     ++ (if ix.unique then [lit "unique"] else [])
     ++ (if truthy ix.type then [lit "type: " ++ ix.type.getD []] else [])
@@ -173,8 +173,8 @@ def renderGroup (db : Db) (g : Group) : R Str := do
 def renderProject (p : Project) : R Str := do
   let qn ← liftPy (doublequoteString p.name)
   let itemsStr := p.items.flatMap fun (k, v) =>
-    if containsChar '\n' v then k ++ lit ": '''" ++ v ++ lit "'''\n"
-    else k ++ lit ": '" ++ v ++ lit "'\n"
+    if containsChar '\n' v then k ++ lit ": '''" ++ prepareTextForDbml v ++ lit "'''\n"
+    else k ++ lit ": '" ++ prepareTextForDbml v ++ lit "'\n"
   let items := indent4 (rstripSet (· = '\n') itemsStr) ++ ['\n']
   let note := if p.note.isEmpty then [] else indent4 (renderNote p.note) ++ ['\n']
   pure (optComment p.comment ++ lit "Project " ++ qn ++ lit " {\n" ++ items ++ note ++ ['}'])
